@@ -1,4 +1,5 @@
 """Independent bond-percolation oracle: enumerate all 2^|E| occupation states of a motif."""
+import functools
 from fractions import Fraction
 
 from mc.poly import Poly
@@ -6,6 +7,11 @@ from mc.poly import Poly
 
 def component_counts(verts, edges, root):
     """count[(frozenset component of root, number of occupied edges)] over all occupation states (bit masks)."""
+    return _component_counts(tuple(verts), tuple(tuple(e) for e in edges), root)
+
+
+@functools.lru_cache(maxsize=4096)
+def _component_counts(verts, edges, root):
     verts = list(verts)
     idx = {v: i for i, v in enumerate(verts)}
     m = len(edges)
